@@ -72,6 +72,31 @@ func c05Specs(tier string, seed int) []c05Spec {
 			}
 		}
 	}
+	// the turn of the century (two-digit years wrap from 99 to 00) and the ends of the supported calendar range, in all
+	// four date formats
+	for _, s := range []string{"1999-12-30", "1999-12-31", "2000-01-01", "2000-02-28", "2000-12-30", "1998-06-15", "1949-12-30", "2049-12-30", "2098-12-29", "1901-03-01"} {
+		for _, l := range []int{2, 3, 62, 367, 800} {
+			if s == "2098-12-29" && l > 367 {
+				continue
+			}
+			for _, a := range []string{"0101", "3112", "end"} {
+				for _, k := range []int{1, 7} {
+					for style := 0; style < 2; style++ {
+						for _, f := range []string{"DateDElong", "DateENlong", "DateDEshort", "DateENshort"} {
+							if (s == "2098-12-29" || s == "1901-03-01" || s == "1949-12-30" || s == "2049-12-30") && strings.HasSuffix(f, "short") {
+								continue // a two-digit year is only unambiguous on the 100-year window of the century split
+							}
+							i++
+							if tier == "quick" && i%2 == 0 && l != 367 {
+								continue
+							}
+							out = append(out, c05Spec{Start: s, Len: l, Annual: a, K: k, Style: style, Fmt: f, Cols: i % 2})
+						}
+					}
+				}
+			}
+		}
+	}
 	// text-valued variables filled by the model (transport instability flag) in daily, yearly and crop records
 	for style := 0; style < 2; style++ {
 		for _, k := range []int{1, 2} {
